@@ -73,6 +73,10 @@ pub fn storage_objects(seed: u64, n: u64) -> Vec<(&'static str, String)> {
         let xpub = bitcoin::bip32::Xpub::from_priv(secp, &acct);
         out.push(("pubkey", format!("[{}/84']{}/0/*", root.fingerprint, xpub)));
         out.push(("pubkey", format!("{}/7/*h", xpub)));
+        // unusually long origins (deep derivation) in front of xpubs and single keys
+        let long: String = (0..(6 + rng.below(10))).map(|i| format!("/{}'", 40 + i)).collect();
+        out.push(("pubkey", format!("[{}{}]{}/0/*", root.fingerprint, long, xpub)));
+        out.push(("pubkey", format!("[{}{}]{}", root.fingerprint, long, bitcoin::PublicKey::new(xpub.public_key))));
         out.push(("pubkey", format!("{}", xpub)));
         let sk = bitcoin::PrivateKey::new(acct.private_key, bitcoin::NetworkKind::Test);
         out.push(("secretkey", sk.to_wif()));
@@ -239,7 +243,12 @@ pub fn storage_run(seed: u64, run: u64, doubles: u64, res: &mut StorageResult) {
             }
             Ok(Err(e)) => {
                 if e.starts_with("parse:") {
-                    // the generator made something this parser refuses: not a round-trip statement
+                    // strings that are valid by construction (the library's own documented syntax) must
+                    // parse; miniscript bodies cut out of unfiltered generator output need not
+                    if matches!(*kind, "concrete" | "semantic" | "pubkey" | "secretkey" | "walletpolicy") {
+                        res.violation.get_or_insert((format!("valid-text-refused:{}", kind), format!("{}: a string in the library's own syntax does not parse: {} ({})", kind, text, e)));
+                        return;
+                    }
                     *res.by_fault.entry("unparseable_seed".into()).or_insert(0) += 1;
                     continue;
                 }
@@ -391,11 +400,24 @@ fn mutate(r: &mut Rng, base: &[u8], other: &[u8]) -> (Vec<u8>, &'static str) {
     if b.is_empty() {
         return (b, "none");
     }
-    match r.below(9) {
+    match r.below(10) {
         0 => {
             let i = r.below(b.len() as u64) as usize;
             b.truncate(i);
             (b, "truncate")
+        }
+        9 => {
+            // EOF right at, or a few bytes after, a structural boundary
+            let marks: Vec<usize> = (0..b.len()).filter(|i| matches!(b[*i], b']' | b'(' | b',' | b'/' | b'#' | b'{' | b'[' | b')' | b'@' | b'<' | b';')).collect();
+            if marks.is_empty() {
+                let i = r.below(b.len() as u64) as usize;
+                b.truncate(i);
+            } else {
+                let m = *r.pick(&marks);
+                let keep = (m + 1 + r.below(5) as usize).min(b.len());
+                b.truncate(keep);
+            }
+            (b, "truncate_at_boundary")
         }
         1 => {
             for _ in 0..r.range(1, 3) {
